@@ -63,6 +63,32 @@ Fail(lnum, clause, detail) == <<[l |-> lnum, c |-> clause, d |-> detail]>>
 Check(ok, lnum, clause, detail) == IF ok THEN <<>> ELSE Fail(lnum, clause, detail)
 
 (***************************************************************************)
+(* State and action clauses of the metadata layer (Meta.tla), evaluated    *)
+(* after every successful call on the tables that changed.                 *)
+(***************************************************************************)
+MetaChecks(p, o2, sch2, ev, n) ==
+  LET D == DeltaDom(ev.delta)
+      metaTouched == D \cap MetaTables # {}
+      \* C10 speaks about removals requested through user actions; ApplyUndoActions/ApplyDocActions
+      \* replay raw doc actions and are judged by C01/C03 instead
+      removedSomewhere == ev.tag = "ua" /\ \E t \in D : Removed(p, o2, t) # {}
+  IN (IF metaTouched
+      THEN Check(DanglingMetaRefs(o2) = {}, n, "C09.resolve", DanglingMetaRefs(o2))
+           \o Check(NullMetaRefs(o2) = {}, n, "C09.nonnull", NullMetaRefs(o2))
+           \o Check(FieldColMismatch(o2) = {}, n, "C09.fieldcol", FieldColMismatch(o2))
+           \o Check(TableRecordMismatch(o2, sch2) = {}, n, "C09.onerec", TableRecordMismatch(o2, sch2))
+           \o Check(UnusedHelpers(o2) = {}, n, "C09.helpers", UnusedHelpers(o2))
+      ELSE <<>>)
+     \o Check(BadPositions(o2, D) = {}, n, "C20.positions", BadPositions(o2, D))
+     \o (IF removedSomewhere
+         THEN Check(StillPointing(p, o2, DOMAIN o2) = {}, n, "C10.ref", StillPointing(p, o2, DOMAIN o2))
+              \o (IF ev.onlyrm
+                  THEN Check(BadRefListCleanup(p, o2, DOMAIN o2) = {}, n, "C10.reflist",
+                             BadRefListCleanup(p, o2, DOMAIN o2))
+                  ELSE <<>>)
+         ELSE <<>>)
+
+(***************************************************************************)
 (* One event                                                               *)
 (***************************************************************************)
 StepEvent(ev, n) ==
@@ -88,6 +114,9 @@ StepEvent(ev, n) ==
     /\ verdict' = verdict
          \o Check(DeltaDom(ev.delta) = {}, n, "C04.unchanged", DeltaDom(ev.delta))
          \o Check(sch2 = sch, n, "C04.schema", {})
+         \* the undo / redo of a bundle that succeeded must itself be applicable
+         \o Check(ev.tag # "undo", n, "C01.applies", {})
+         \o Check(ev.tag # "redo", n, "C03.applies", {})
          \o Check(SchemaMatchesMeta(o2, sch2), n, "C08.schema", SchemaDiff(o2, sch2))
   ELSE
     LET m2   == ApplyAll(mdl, ev.stored)
@@ -114,6 +143,7 @@ StepEvent(ev, n) ==
              THEN Check(Len(ev.stored) = 0 /\ DeltaDom(ev.delta) = {}, n, ev.clause, {})
              ELSE <<>>)
          \o Check(SchemaMatchesMeta(o2, sch2), n, "C08.schema", SchemaDiff(o2, sch2))
+         \o MetaChecks(obs, o2, sch2, ev, n)
 
 Init ==
   /\ ti = 1
